@@ -56,3 +56,61 @@ theorem exact_term_decides (cfg : Cfg) (hs : RealScheme cfg) (hnorm : ∀ c, c <
     exact exactMatchNaive_complete cfg hs hnorm cs norm fwd t.text t.isBytes p (htok t ht) hm r hr hneg ⟨s, hfit, hocc⟩
 
 end Fzf.Pattern
+
+namespace Fzf.Pattern
+open Fzf Fzf.Algo
+
+/-- Generic form: if on every token the match function returns and reports a match exactly when
+    `D` holds of the token, then `iter` returns and reports a match exactly when `D` holds of some
+    token. -/
+theorem iter_decides (cfg : Cfg) (v2 : Bool) (typ : TermType) (cs norm fwd : Bool) (p : Array Nat) (wp : Bool) (cap : Nat)
+    (D : Tok → Prop) (toks : List Tok)
+    (h : ∀ t ∈ toks, ∃ r, runTerm cfg v2 typ cs norm fwd t.text t.isBytes p wp cap = .ok r ∧ (0 ≤ r.start ↔ D t)) :
+    ∃ x, iter cfg v2 typ toks cs norm fwd p wp cap = .ok x ∧ (x.isSome = true ↔ ∃ t ∈ toks, D t) := by
+  obtain ⟨x, hx⟩ := iter_total cfg v2 typ cs norm fwd p wp cap toks (fun t ht => (h t ht).imp fun r hr => hr.1)
+  refine ⟨x, hx, ?_⟩
+  cases x with
+  | some res =>
+    simp only [Option.isSome_some, true_iff]
+    obtain ⟨pre, tk, post, r, hl, hr, hs0, _, _⟩ := iter_some cfg v2 typ cs norm fwd p wp cap toks res hx
+    have hmem : tk ∈ toks := by rw [hl]; simp
+    obtain ⟨r', hr', hiff⟩ := h tk hmem
+    rw [hr] at hr'; cases hr'
+    exact ⟨tk, hmem, hiff.mp hs0⟩
+  | none =>
+    simp only [Option.isSome_none, Bool.false_eq_true, false_iff]
+    rintro ⟨t, ht, hd⟩
+    obtain ⟨r, hr, hneg⟩ := iter_none cfg v2 typ cs norm fwd p wp cap toks hx t ht
+    obtain ⟨r', hr', hiff⟩ := h t ht
+    rw [hr] at hr'; cases hr'
+    have := hiff.mpr hd
+    omega
+
+/-- **Anchored terms are decided exactly**: `^t` is reported iff some searched field has `t` right
+    after its leading whitespace; `t$` iff some field has it right before its trailing whitespace;
+    `^t$` iff some field, trimmed, is `t` (whitespace kept where the term itself has it). -/
+theorem anchored_terms_decide (cfg : Cfg) (v2 : Bool) (cs norm fwd : Bool) (p : Array Nat) (hm : 0 < p.size) (wp : Bool) (cap : Nat)
+    (toks : List Tok) :
+    (∃ x, iter cfg v2 .prefix toks cs norm fwd p wp cap = .ok x ∧ (x.isSome = true ↔ ∃ t ∈ toks,
+      OccAt (fun c pc => foldTL cfg cs norm c == pc) t.text p (if !cfg.U.isSpace (p.getD 0 0) then leadingWhitespaces cfg t.text else 0))) ∧
+    (∃ x, iter cfg v2 .suffix toks cs norm fwd p wp cap = .ok x ∧ (x.isSome = true ↔ ∃ t ∈ toks,
+      p.size ≤ suffixEnd cfg t.text p ∧ OccAt (fun c pc => foldTL cfg cs norm c == pc) t.text p (suffixEnd cfg t.text p - p.size))) ∧
+    (∃ x, iter cfg v2 .equal toks cs norm fwd p wp cap = .ok x ∧ (x.isSome = true ↔ ∃ t ∈ toks,
+      ((t.text.size : Int) - (if !cfg.U.isSpace (p.getD 0 0) then leadingWhitespaces cfg t.text else 0 : Nat) -
+          (if !cfg.U.isSpace (p.getD (p.size - 1) 0) then trailingWhitespaces cfg t.text else 0 : Nat) = p.size ∧
+        OccAt (equalOk cfg cs norm) t.text p (if !cfg.U.isSpace (p.getD 0 0) then leadingWhitespaces cfg t.text else 0)))) := by
+  refine ⟨?_, ?_, ?_⟩
+  · apply iter_decides
+    intro t _
+    obtain ⟨r, hr, hiff, _⟩ := prefixMatch_spec cfg cs norm t.text p hm
+    exact ⟨r, by simpa [runTerm] using hr, hiff⟩
+  · apply iter_decides
+    intro t _
+    obtain ⟨r, hr, hiff, _⟩ := suffixMatch_spec cfg cs norm t.text p hm
+    exact ⟨r, by simpa [runTerm] using hr, hiff⟩
+  · apply iter_decides
+    intro t _
+    obtain ⟨r, hr, hiff, _⟩ := equalMatch_spec cfg cs norm t.text p hm
+    exact ⟨r, by simpa [runTerm] using hr, hiff⟩
+
+end Fzf.Pattern
